@@ -35,6 +35,7 @@ import (
 	"github.com/lindb/lindb/constants"
 	"github.com/lindb/lindb/flow"
 	"github.com/lindb/lindb/kv"
+	"github.com/lindb/lindb/kv/version"
 	"github.com/lindb/lindb/metrics"
 	"github.com/lindb/lindb/models"
 	"github.com/lindb/lindb/pkg/timeutil"
@@ -288,11 +289,11 @@ func (f *dataFamily) Flush() error {
 		f.immutableSeq = immutableSeq
 		f.mutex.Unlock()
 
-		if err := f.flushMemoryDatabase(immutableSeq, waitingFlushMemDB); err != nil {
+		if err := f.flushMemoryDatabase(immutableSeq, waitingFlushMemDB, true); err != nil {
 			return err
 		}
 
-		// flush success, mark immutable memory database nil
+		// flush success, mark immutable memory database nil(already detached when the table file was committed)
 		f.mutex.Lock()
 		f.immutableMemDB = nil
 		f.immutableSeq = nil
@@ -396,11 +397,15 @@ func (f *dataFamily) Filter(executeCtx *flow.ShardExecuteContext) (resultSet []f
 	f.lastReadTime.Store(fasttime.UnixMilliseconds())
 	// NOTE: not found of one side(memory database doesn't know the field/series, no table file matches them)
 	// cannot discard the data which the other side found.
-	memRS, err := f.memoryFilter(executeCtx)
+	// NOTE: the kv snapshot must be taken under the same lock as the list of memory databases: Flush detaches the
+	// flushed memory database under that lock together with the commit of its table file, so a query either sees the
+	// memory database(file not committed) or the file(memory database detached), never both.
+	memRS, snapShot, err := f.memoryFilter(executeCtx)
 	if err != nil && !errors.Is(err, constants.ErrNotFound) {
+		snapShot.Close()
 		return nil, err
 	}
-	fileRS, err := f.fileFilter(executeCtx)
+	fileRS, err := f.fileFilter(executeCtx, snapShot)
 	if err != nil && !errors.Is(err, constants.ErrNotFound) {
 		return nil, err
 	}
@@ -458,7 +463,8 @@ func (f *dataFamily) GetState() models.DataFamilyState {
 	return state
 }
 
-func (f *dataFamily) memoryFilter(shardExecuteContext *flow.ShardExecuteContext) (resultSet []flow.FilterResultSet, err error) {
+func (f *dataFamily) memoryFilter(shardExecuteContext *flow.ShardExecuteContext,
+) (resultSet []flow.FilterResultSet, snapShot version.Snapshot, err error) {
 	memFilter := func(memDB memdb.MemoryDatabase) error {
 		rs, err := memDB.Filter(shardExecuteContext)
 		if errors.Is(err, constants.ErrNotFound) {
@@ -473,21 +479,22 @@ func (f *dataFamily) memoryFilter(shardExecuteContext *flow.ShardExecuteContext)
 	}
 	f.mutex.Lock()
 	defer f.mutex.Unlock()
+	snapShot = f.family.GetSnapshot()
 	if f.mutableMemDB != nil {
 		if err := memFilter(f.mutableMemDB); err != nil {
-			return nil, err
+			return nil, snapShot, err
 		}
 	}
 	if f.immutableMemDB != nil {
 		if err := memFilter(f.immutableMemDB); err != nil {
-			return nil, err
+			return nil, snapShot, err
 		}
 	}
 	return
 }
 
-func (f *dataFamily) fileFilter(shardExecuteContext *flow.ShardExecuteContext) (resultSet []flow.FilterResultSet, err error) {
-	snapShot := f.family.GetSnapshot()
+func (f *dataFamily) fileFilter(shardExecuteContext *flow.ShardExecuteContext, snapShot version.Snapshot,
+) (resultSet []flow.FilterResultSet, err error) {
 	defer func() {
 		if err != nil || len(resultSet) == 0 {
 			// if not find metrics data or has error, close snapshot directly
@@ -633,7 +640,7 @@ func (f *dataFamily) Close() error {
 	f.flushCondition.Wait()
 
 	if f.immutableMemDB != nil {
-		if err := f.flushMemoryDatabase(f.immutableSeq, f.immutableMemDB); err != nil {
+		if err := f.flushMemoryDatabase(f.immutableSeq, f.immutableMemDB, false); err != nil {
 			return err
 		}
 	}
@@ -642,7 +649,7 @@ func (f *dataFamily) Close() error {
 		for leader, seq := range f.seq {
 			sequences[leader] = seq.Load()
 		}
-		if err := f.flushMemoryDatabase(sequences, f.mutableMemDB); err != nil {
+		if err := f.flushMemoryDatabase(sequences, f.mutableMemDB, false); err != nil {
 			return err
 		}
 	}
@@ -655,7 +662,28 @@ func (f *dataFamily) Close() error {
 }
 
 // flushMemoryDatabase flushes memory database to disk.
-func (f *dataFamily) flushMemoryDatabase(sequences map[int32]int64, memDB memdb.MemoryDatabase) error {
+// detachOnCommitFlusher commits the table file and detaches the flushed memory database in one step under the family lock.
+type detachOnCommitFlusher struct {
+	metricsdata.Flusher
+	f     *dataFamily
+	memDB memdb.MemoryDatabase
+}
+
+// Close commits the flushed table file(makes it visible for query), then detaches the memory database which it holds.
+func (d *detachOnCommitFlusher) Close() error {
+	d.f.mutex.Lock()
+	defer d.f.mutex.Unlock()
+
+	err := d.Flusher.Close()
+	if err == nil && d.f.immutableMemDB == d.memDB {
+		d.f.immutableMemDB = nil
+	}
+	return err
+}
+
+// flushMemoryDatabase flushes memory database to disk,
+// detach: detaches memDB from family when its table file is committed(caller doesn't hold the family lock).
+func (f *dataFamily) flushMemoryDatabase(sequences map[int32]int64, memDB memdb.MemoryDatabase, detach bool) error {
 	startTime := time.Now()
 	flusher := f.family.NewFlusher()
 	defer func() {
@@ -670,6 +698,9 @@ func (f *dataFamily) flushMemoryDatabase(sequences map[int32]int64, memDB memdb.
 	dataFlusher, err := newMetricDataFlusher(flusher)
 	if err != nil {
 		return err
+	}
+	if detach {
+		dataFlusher = &detachOnCommitFlusher{Flusher: dataFlusher, f: f, memDB: memDB}
 	}
 	// flush family data
 	if err := memDB.FlushFamilyTo(dataFlusher); err != nil {
